@@ -417,7 +417,22 @@ def _drive(ctx, dom, groups):
             pool.join()
 
 
+def deductive(ctx):
+    """engine D: Docker.execute / Singularity.execute hand the launcher runtime prefix ... working
+    directory flag, image:tag and then exactly the native argv of the re-mapped values, on every path"""
+    from contracts import container as CT
+    from pyvc.verify import verify, summarize
+
+    for kind in ("docker", "singularity"):
+        summarize(ctx, verify(ctx, CT.container_contract(kind)))
+
+
 def run(ctx):
+    deductive(ctx)
+    _run_bounded(ctx)
+
+
+def _run_bounded(ctx):
     ctx.level = "other"
     ctx.explanation = (
         "Real Job.run() of generated shell tasks under docker.Environment and singularity.Environment with the process "
